@@ -20,13 +20,14 @@ import (
 func init() { reg("C06", "main", c06main) }
 
 const (
-	lvlFgOnly = slog.Level(20) // registered with a foreground colour only
-	lvlFgBg   = slog.Level(21) // registered with foreground and background
-	lvlNoClr  = slog.Level(22) // registered without colours, custom tags
-	lvlUnreg  = slog.Level(77) // never registered
-	lvlCJK    = slog.Level(23) // registered under a CJK title, tags derived from it
-	lvlCyr    = slog.Level(24) // registered under a Cyrillic title
-	lvlMBTags = slog.Level(25) // registered with multi-byte custom tags
+	lvlFgOnly  = slog.Level(20) // registered with a foreground colour only
+	lvlFgBg    = slog.Level(21) // registered with foreground and background
+	lvlNoClr   = slog.Level(22) // registered without colours, custom tags
+	lvlUnreg   = slog.Level(77) // never registered
+	lvlCJK     = slog.Level(23) // registered under a CJK title, tags derived from it
+	lvlCyr     = slog.Level(24) // registered under a Cyrillic title
+	lvlMBTags  = slog.Level(25) // registered with multi-byte custom tags
+	lvlRecolor = slog.Level(26) // registered; its colours are set anew (SetLevelColors) before every use
 )
 
 var customRegistered bool
@@ -41,11 +42,12 @@ func registerCustomLevels() {
 	_ = slog.RegisterLevel(lvlCJK, "\u8b66\u544a\u7ea7\u522b\u4e00", slog.RegWithColor(color.FgYellow))
 	_ = slog.RegisterLevel(lvlCyr, "\u0443\u0432\u0435\u0434\u043e\u043c\u043b\u0435\u043d\u0438\u0435", slog.RegWithTreatedAsLevel(slog.InfoLevel))
 	_ = slog.RegisterLevel(lvlMBTags, "mbtags", slog.RegWithShortTags([6]string{"", "\u00e9", "\u00e9\u00e0", "\u65e5\u672c\u8a9e", "\u65e5\u672c\u8a9e\u3060", "\U0001f600\u65e5\u672c\u8a9e\u3060"}))
+	_ = slog.RegisterLevel(lvlRecolor, "recolor")
 	_ = slog.RegisterLevel(lvlNoClr, "plainlvl", slog.RegWithShortTags([6]string{"", "p", "pl", "pln", "plnl", "plnlv"}), slog.RegWithTreatedAsLevel(slog.DebugLevel))
 }
 
 var colorLevels = []slog.Level{slog.PanicLevel, slog.FatalLevel, slog.ErrorLevel, slog.WarnLevel, slog.InfoLevel, slog.DebugLevel, slog.TraceLevel,
-	slog.AlwaysLevel, slog.OKLevel, slog.SuccessLevel, slog.FailLevel, lvlFgOnly, lvlFgBg, lvlNoClr, lvlUnreg, lvlCJK, lvlCyr, lvlMBTags}
+	slog.AlwaysLevel, slog.OKLevel, slog.SuccessLevel, slog.FailLevel, lvlFgOnly, lvlFgBg, lvlNoClr, lvlUnreg, lvlCJK, lvlCyr, lvlMBTags, lvlRecolor, lvlRecolor}
 
 type c06case struct {
 	recCase
@@ -253,6 +255,15 @@ func c06main(c *Ctx) {
 		otherFlags := randomOtherFlags(r, slog.Ldate, slog.Ltime, slog.Lmicroseconds, slog.LlocalTime, slog.Lattrs)
 		warm := r.Intn(6)
 		c.R.Distinct("same_logger_logged_before_in", []string{"-", "-", "json", "logfmt", "color", "a record that panicked while being formatted (recovered)"}[warm])
+		recolor := ""
+		if cs.lvl == lvlRecolor {
+			// any pair of the public colour constants, "no colour" included on either side
+			fg := gen.Pick(r, []color.Color{color.NoColor, color.FgRed, color.FgLightBlue, color.FgDarkGray, color.FgDefault, color.FgWhite})
+			bg := gen.Pick(r, []color.Color{color.NoColor, color.NoColor, color.BgBlue, color.BgUnderline, color.BgBoldOrBright, color.BgInverse, color.BgDefault, color.BgLightYellow})
+			slog.SetLevelColors(lvlRecolor, fg, bg)
+			recolor = fmt.Sprintf("fg=%d bg=%d", fg, bg)
+			c.R.Distinct("level_colour_pairs_set", recolor)
+		}
 		run := func(cs c06case) ([]byte, []tv) {
 			if cs.caller {
 				slog.AddFlags(slog.Lcaller)
@@ -313,6 +324,7 @@ func c06main(c *Ctx) {
 		desc := cs.desc(FColor)
 		desc["ts"] = cs.ts.Format(time.RFC3339Nano)
 		desc["tag_width"], desc["min_width"], desc["layout_domain"], desc["other_flags"] = cs.tagW, cs.minW, cs.layoutOK, otherFlags
+		desc["level_colours_set"] = recolor
 		desc["same_logger_logged_before_in"] = []string{"-", "-", "json", "logfmt", "color", "a record that panicked while being formatted (recovered)"}[warm]
 		payload, viols := run(cs)
 		if len(viols) == 0 {
